@@ -16,7 +16,7 @@ func (rt *runtime) cmplEvaluateNodeStatement(node nodeStatement) Value {
 		goruntime.Gosched()
 		select {
 		case value := <-rt.otto.Interrupt:
-			value()
+			runInterrupt(value)
 		default:
 		}
 	}
@@ -283,7 +283,7 @@ resultBreak:
 			goruntime.Gosched()
 			select {
 			case value := <-rt.otto.Interrupt:
-				value()
+				runInterrupt(value)
 			default:
 			}
 		}
